@@ -422,4 +422,23 @@ Section Proofs.
     intros Hd. rewrite (g_bounds_ok d vs Hd). simpl. apply bounds_walk_refuses.
   Qed.
 
+  (* what the result reports for an island's decision vector: the champion parameters, the parameters of a
+     best individual, and what the final pipeline run of the island is configured with *)
+  Lemma src_reporting d r (vs : list var) x :
+    desc_ok d = true -> rp_ok r = true -> List.length x = total vs ->
+    g_reported fexp (rp_champion r) d vs x = convert_walk fexp vs x /\
+    g_reported fexp (rp_best r) d vs x = convert_walk fexp vs x /\
+    exists asg, g_final_applied fexp r d vs x = Some asg /\
+                map fst asg = map key vs /\
+                flat_all asg = g_reported fexp (rp_champion r) d vs x.
+  Proof.
+    intros Hd Hr L. unfold rp_ok in Hr. apply andb_prop in Hr. destruct Hr as [Hr H3].
+    apply andb_prop in Hr. destruct Hr as [H1 H2].
+    destruct (desc_ok_parts d Hd) as (Hcv & Hup & _).
+    unfold g_final_applied, g_reported. rewrite H1, H2, H3.
+    destruct (g_convert_ok (d_cv d) vs x Hcv) as [-> _]. rewrite (g_assign_ok _ _ _ Hup).
+    split; [reflexivity|]. split; [reflexivity|].
+    exact (reported_is_applied fexp vs x L).
+  Qed.
+
 End Proofs.
